@@ -151,6 +151,9 @@ func (o *netOracle) run() []OracleFailure {
 					o.ackWrit[c][k] = a
 				}
 				if strings.HasPrefix(e, "send_packet") {
+					if a, refused := o.ackWrit[c][k]; refused && a == "error:unauthorized" {
+						o.fail("C11:forward-after-refusal", "relay chain forwarded a packet it had already answered with an error acknowledgement: the destination sees a packet whose refusal travelled back to the source", d, idx)
+					}
 					o.sent[c] = append(o.sent[c], p)
 					if p.Relay != self {
 						o.fail("C11:forward-off-relay", "a chain that is not the packet's relay chain re-committed it", d, idx)
@@ -226,6 +229,7 @@ func (o *netOracle) run() []OracleFailure {
 // ---- random histories ----------------------------------------------------------------
 
 type genCfg struct {
+	Focus   bool // all sends on one route, so that sequences reach two digits
 	Chains  int
 	Ops     int
 	Perturb int // percent of relayed messages that are altered
@@ -237,13 +241,21 @@ type genPkt struct {
 	P      Pkt
 	Stage  int  // next step of the life cycle
 	Unauth bool // refused by the relay chain's whitelist
+	Heights map[int]uint64 // proof height each completed step used
 }
 
 func randomHistory(h *NetH, r *rand.Rand, cfg genCfg) {
 	n := len(h.chains)
 	var pkts []*genPkt
 	ports := []string{"tibcmock", "tibcmock", "tibcmock", "NFT", "nope"}
+	fs, fd, frel := 0, 1, -1
+	if cfg.Focus && n > 2 && r.Intn(2) == 0 {
+		frel = 2
+	}
 	route := func() (int, int, int) { // src, dst, relay(-1)
+		if cfg.Focus {
+			return fs, fd, frel
+		}
 		s := r.Intn(n)
 		d := (s + 1 + r.Intn(n-1)) % n
 		rel := -1
@@ -302,14 +314,22 @@ func randomHistory(h *NetH, r *rand.Rand, cfg genCfg) {
 		}
 	}
 	for step := 0; step < cfg.Ops; step++ {
-		switch x := r.Intn(100); {
+		x := r.Intn(100)
+		if cfg.Focus && len(pkts) < 12 && x >= 30 && x < 60 {
+			x = 0 // build up a deep channel first
+		}
+		switch {
 		case x < 22: // send
 			s, d, rel := route()
 			p := Pkt{nextSeq(s, d), h.names[s], h.names[d], "", pick(r, ports), fmt.Sprintf("~d%d-%d", step, r.Intn(1000))}
 			if rel >= 0 {
 				p.Relay = h.names[rel]
 			}
-			switch r.Intn(14) {
+			mal := 14
+			if cfg.Focus {
+				mal = 40
+			}
+			switch r.Intn(mal) {
 			case 0:
 				p.Seq += uint64(1 + r.Intn(2))
 			case 1:
@@ -324,7 +344,7 @@ func randomHistory(h *NetH, r *rand.Rand, cfg genCfg) {
 				p.Seq = 0
 			}
 			if h.Send(s, p) {
-				pkts = append(pkts, &genPkt{P: p})
+				pkts = append(pkts, &genPkt{P: p, Heights: map[int]uint64{}})
 			}
 		case x < 30: // client update
 			i := r.Intn(n)
@@ -381,7 +401,12 @@ func randomHistory(h *NetH, r *rand.Rand, cfg genCfg) {
 						ps.Chain = r.Intn(n)
 					}
 				}
-				if h.Recv(st.at, q, ps, heightFor(st.at, st.from)) && !altered && k == g.Stage {
+				ht := heightFor(st.at, st.from)
+				if old, done := g.Heights[k]; done && r.Intn(3) != 0 {
+					ht = old // replay with the proof that was valid the first time
+				}
+				if h.Recv(st.at, q, ps, ht) && !altered && k == g.Stage {
+					g.Heights[k] = ht
 					g.Stage++
 					last := h.Descs[len(h.Descs)-1]
 					if st.at == rel && len(last.Events) == 2 && strings.HasPrefix(last.Events[1], "write_ack") {
@@ -407,7 +432,12 @@ func randomHistory(h *NetH, r *rand.Rand, cfg genCfg) {
 						ps.Chain = -1
 					}
 				}
-				if h.Ack(st.at, q, ack, ps, heightFor(st.at, st.from)) && !altered && k == g.Stage {
+				ht := heightFor(st.at, st.from)
+				if old, done := g.Heights[k]; done && r.Intn(3) != 0 {
+					ht = old
+				}
+				if h.Ack(st.at, q, ack, ps, ht) && !altered && k == g.Stage {
+					g.Heights[k] = ht
 					g.Stage++
 				}
 			}
@@ -519,7 +549,16 @@ func runNetProperty(t *testing.T, prop string, sigPrefixes []string, fams []netF
 		r := newRand(int64(k)*7919 + int64(len(prop)))
 		h := newNetH(t, cfg.Chains)
 		mesh(h)
-		randomHistory(h, r, cfg)
+		c2 := cfg
+		if k%2 == 1 {
+			c2.Focus = true
+			c2.Ops = cfg.Ops + 30
+			if c2.Rules {
+				h.SetRules(2, []string{"*,*,*"})
+				c2.Rules = false
+			}
+		}
+		randomHistory(h, r, c2)
 		finish(fmt.Sprintf("random-%d", k), h)
 	}
 	cs.Write(t, out)
